@@ -104,6 +104,8 @@ type FV struct {
 	bagUse    int
 	inSwap    bool
 	prop      string // property whose contract slice is being verified ("" = all clauses)
+	ghostLoops map[*GhostStmt]map[int]bool
+	loopNest  map[int][]int // loop ordinal → ordinals of the enclosing loops
 }
 
 // tagOK: a clause tagged with property ids belongs to the current verification only if it names the current
@@ -129,7 +131,7 @@ type loopCtx struct {
 func newFV(w *World, fi *FuncInfo) *FV {
 	fv := &FV{w: w, fi: fi, pkg: fi.Pkg.Types, info: fi.Pkg.TypesInfo, pc: fi.PC, fc: fi.Contract,
 		declared: map[string]bool{}, oblNames: map[string]int{}, written: map[string]bool{}, compSort: map[string]string{}, compKind: map[string]string{},
-		bagSorts: map[string]bool{}, localRoles: map[types.Object]string{}, closures: map[types.Object]*closure{}, closureIsOrd: map[string]bool{},
+		loopNest: map[int][]int{}, bagSorts: map[string]bool{}, localRoles: map[types.Object]string{}, closures: map[types.Object]*closure{}, closureIsOrd: map[string]bool{},
 		loopOrd: map[ast.Stmt]int{}, tparams: map[string]bool{}, assumptions: map[string]bool{}, callOrd: map[string]int{}}
 	fv.decls = append(fv.decls,
 		"(declare-datatypes ((Slice 0)) (((mk-slice (sbase Int) (soff Int) (slen Int) (scap Int)))))",
@@ -229,7 +231,8 @@ func (fv *FV) sortOf(t types.Type) string {
 		case types.Uint64:
 			return sBV64
 		case types.UnsafePointer:
-			return sInt
+			fv.declare("sort:ElemPtr", "(declare-datatypes ((ElemPtr 0)) (((mk-eptr (epbase Int) (epidx Int)))))")
+			return "ElemPtr"
 		}
 		if x.Info()&types.IsInteger != 0 || x.Kind() == types.UntypedNil || x.Kind() == types.UntypedRune {
 			return sInt
